@@ -57,6 +57,32 @@ type Exec struct {
 	OnPoint  func(e *Exec, key uint64) bool
 	cleanup  []func()
 	abort    bool
+	timers   []*vtimer
+}
+
+type vtimer struct {
+	at   time.Time
+	fire func()
+	done bool
+}
+
+// fireTimer fires the earliest pending virtual timer (only called at quiescence): virtual time jumps to it.
+func (e *Exec) fireTimer() bool {
+	var best *vtimer
+	for _, tm := range e.timers {
+		if !tm.done && (best == nil || tm.at.Before(best.at)) {
+			best = tm
+		}
+	}
+	if best == nil {
+		return false
+	}
+	best.done = true
+	if best.at.After(e.clock) {
+		e.clock = best.at
+	}
+	best.fire()
+	return true
 }
 
 type Options struct {
@@ -218,7 +244,7 @@ func (e *Exec) schedule(t *Thread, voluntary bool) {
 			}
 		}
 		e.idle++
-		if !any {
+		if !any && !e.fireTimer() {
 			e.Deadlock = true
 			e.fail(t, "deadlock: no enabled thread")
 		}
@@ -469,6 +495,28 @@ func WithCancel(parent context.Context) (context.Context, context.CancelFunc) {
 		}
 		cancel()
 	}
+}
+
+// WithTimeout / WithDeadline: virtual timers. The context is cancelled when the virtual clock reaches the
+// deadline, which by default happens only at quiescence (no thread can make progress).
+func WithTimeout(parent context.Context, d time.Duration) (context.Context, context.CancelFunc) {
+	if E == nil {
+		return context.WithTimeout(parent, d)
+	}
+	return WithDeadline(parent, E.clock.Add(d))
+}
+
+func WithDeadline(parent context.Context, at time.Time) (context.Context, context.CancelFunc) {
+	if E == nil {
+		return context.WithDeadline(parent, at)
+	}
+	if !at.After(E.clock) {
+		return context.WithDeadline(parent, time.Unix(0, 1)) // already expired, as with the real clock
+	}
+	ctx, cancel := WithCancel(parent)
+	tm := &vtimer{at: at, fire: cancel}
+	E.timers = append(E.timers, tm)
+	return ctx, func() { tm.done = true; cancel() }
 }
 
 // ---------------- channels ----------------
